@@ -149,19 +149,19 @@ func check(c Case) error {
 	var res result
 	select {
 	case res = <-done:
-	case <-time.After(10 * time.Second):
+	case <-time.After(20 * time.Second):
 		g := orderingGoroutines()
 		if g == "" {
-			panic("harness: C14 case exceeded 10s without an ordering goroutine")
+			panic("harness: C14 case exceeded 20s without an ordering goroutine")
 		}
-		return harness.Failf("C14/deadlock", "iteration / Close did not return within 10s (stop=%d at %d, request %v); goroutines in ordering frames:\n%s", c.Stop, c.StopAt, c.Request, g)
+		return harness.Failf("C14/deadlock", "iteration / Close did not return within 20s (stop=%d at %d, request %v); goroutines in ordering frames:\n%s", c.Stop, c.StopAt, c.Request, g)
 	}
 	// the producer goroutine ends (after Close it must already be gone; after a
 	// bare cancel it ends on its own)
-	deadline := time.Now().Add(2 * time.Second)
+	deadline := time.Now().Add(5 * time.Second)
 	for orderingGoroutines() != "" {
 		if time.Now().After(deadline) {
-			return harness.Failf("C14/goroutine-leak", "producer goroutine still alive 2s after the iteration ended (stop=%d):\n%s", c.Stop, orderingGoroutines())
+			return harness.Failf("C14/goroutine-leak", "producer goroutine still alive 5s after the iteration ended (stop=%d):\n%s", c.Stop, orderingGoroutines())
 		}
 		time.Sleep(time.Millisecond)
 	}
